@@ -2,6 +2,7 @@ package props
 
 import (
 	"fmt"
+	"go/token"
 	"strings"
 
 	"golang.org/x/tools/go/ssa"
@@ -157,4 +158,143 @@ func runC14(c *eng.Ctx) {
 		c.Check(okCopy, "copies-the-compressed-bytes", nil, f, "the compressed bytes are copied into the result", "no copy(dst, buffer.Bytes()) found")
 		c.Check(p.MustPass(f, invokeOn(".writer", "Reset"), 0) && p.MustPass(f, invokeOn(".buffer", "Reset"), 0), "context-reset-for-next-chunk", nil, f, "the compress context is reset for the next chunk on every path", "")
 	})
+
+	// the "no value in this slot" sentinel is +Inf and nothing else
+	c.Rule("SYMMETRY", "pkg/encoding,aggregation{empty-slot sentinel = +Inf}", func() { emptySentinelIsPlusInf(c) })
+
+	// the offset table's width covers its largest offset
+	c.Rule("GUARD", "pkg/encoding.FixedOffsetEncoder{max = maximum of the offsets}", func() { offsetEncoderMax(c) })
+
+	// an empty block is a legal block
+	c.Rule("GUARD", "pkg/encoding.FixedOffsetDecoder.GetBlock{empty range accepted}", func() { emptyBlockAccepted(c) })
+}
+
+// emptySentinelIsPlusInf: the down-sampling target buffer is pre-filled with +Inf ("slot has no value"); the encoder and
+// the aggregators test for exactly that sentinel. A test that also matches -Inf drops a real data point.
+func emptySentinelIsPlusInf(c *eng.Ctx) {
+	p := c.P
+	signOf := func(v ssa.Value) (int64, bool) { return eng.ConstInt(v) }
+	// producer
+	prod := 0
+	for _, fn := range p.AllFuncs {
+		if eng.PkgOf(fn) != "aggregation" {
+			continue
+		}
+		for _, s := range p.SitesDirect(fn, eng.CallTo("math.Inf")) {
+			k, ok := signOf(s.Instr.(*ssa.Call).Common().Args[0])
+			prod++
+			c.Check(ok && k > 0, "producer:"+topFunc(c, fn), s.Instr, fn, "the empty-slot sentinel written by the aggregation package is +Inf", fmt.Sprintf("math.Inf(%d)", k))
+		}
+	}
+	c.Check(prod > 0, "producer-found", nil, nil, "the aggregation package builds its sentinel with math.Inf", "")
+	for _, fk := range []string{"pkg/encoding.TSDEncoder.EmitDownSamplingValue", "aggregation.fieldAggregator.AggregateBySlot", "aggregation.DownSamplingMultiSeriesInto"} {
+		f := c.Fn(fk)
+		n := 0
+		for _, s := range p.Sites(f, eng.CallTo("math.IsInf")) {
+			k, ok := signOf(s.Instr.(*ssa.Call).Common().Args[1])
+			n++
+			c.Check(ok && k > 0, fmt.Sprintf("consumer:%s[%d]", fk, n), s.Instr, f, "a slot is treated as empty only for +Inf (sign > 0): -Inf is a value like any other and is kept", fmt.Sprintf("math.IsInf(v, %d)", k))
+		}
+		for _, b := range eng.BlocksT(f) {
+			for _, in := range b.Instrs {
+				bo, ok := in.(*ssa.BinOp)
+				if !ok || bo.Op != token.EQL && bo.Op != token.NEQ {
+					continue
+				}
+				for _, side := range []ssa.Value{bo.X, bo.Y} {
+					for _, cl := range p.CallsIn(side, "math.Inf") {
+						k, ok := signOf(cl.Common().Args[0])
+						n++
+						c.Check(ok && k > 0, fmt.Sprintf("consumer:%s[%d]", fk, n), in, f, "a slot is treated as empty only for +Inf", fmt.Sprintf("compares with math.Inf(%d)", k))
+					}
+				}
+			}
+		}
+		c.Check(n > 0, "consumer-tests-the-sentinel:"+fk, nil, f, fk+" recognises the empty-slot sentinel", "no math.IsInf / == math.Inf test found")
+	}
+}
+
+// offsetEncoderMax: FixedOffsetEncoder.width() is derived from e.max; every offset is written with that width, so e.max
+// must be the maximum over ALL offsets held — Add raises it per value, FromValues scans the whole list (the list is
+// not required to be increasing).
+func offsetEncoderMax(c *eng.Ctx) {
+	p := c.P
+	maxF := "pkg/encoding.FixedOffsetEncoder.max"
+	w := c.Fn("pkg/encoding.FixedOffsetEncoder.width")
+	c.Check(len(p.Sites(w, eng.LoadField(maxF))) > 0, "width-from-max", nil, w, "the entry width is derived from e.max", "")
+	inLoop := func(b *ssa.BasicBlock) bool {
+		seen := map[*ssa.BasicBlock]bool{}
+		var st []*ssa.BasicBlock
+		st = append(st, b.Succs...)
+		for len(st) > 0 {
+			x := st[len(st)-1]
+			st = st[:len(st)-1]
+			if x == b {
+				return true
+			}
+			if seen[x] {
+				continue
+			}
+			seen[x] = true
+			st = append(st, x.Succs...)
+		}
+		return false
+	}
+	for _, fk := range []string{"pkg/encoding.FixedOffsetEncoder.Add", "pkg/encoding.FixedOffsetEncoder.FromValues"} {
+		f := c.Fn(fk)
+		facts := p.MustFacts(f)
+		src := ssa.Value(f.Params[1])
+		raised := 0
+		for i, s := range p.Sites(f, eng.StoreField(maxF)) {
+			st := s.Instr.(*ssa.Store)
+			if _, isC := st.Val.(*ssa.Const); isC {
+				continue // reset
+			}
+			if b, ok := eng.Unwrap(st.Val).(*ssa.Call); ok && len(p.CalleeKeys(b)) > 0 && (p.CalleeKeys(b)[0] == "builtin:max" || strings.HasSuffix(p.CalleeKeys(b)[0], "slices.Max")) {
+				raised++
+				continue
+			}
+			fromSrc := eng.DependsOn(st.Val, func(x ssa.Value) bool { return x == src })
+			fs := facts.At(st)
+			up := facts.Find(fs, "lt", eng.DescSuffix(".max"), func(_ string, v ssa.Value) bool { return eng.SameValue(v, st.Val) })
+			okS := fromSrc && len(up) > 0
+			if strings.HasSuffix(fk, "FromValues") {
+				okS = okS && inLoop(st.Block())
+			}
+			if okS {
+				raised++
+			}
+			c.Check(okS, fmt.Sprintf("%s:max-only-raised[%d]", fk, i), st, f,
+				"e.max is raised to an offset that exceeds it — for a whole list, inside the scan over every element — so that it ends as the maximum (the entry width must fit the largest offset wherever it stands in the list)",
+				"stores "+p.Desc(st.Val)+" with facts: "+strings.Join(facts.Render(fs), " ; "))
+		}
+		c.Check(raised > 0, fk+":max-maintained", nil, f, fk+" maintains e.max", "no raising store of e.max found")
+	}
+}
+
+// emptyBlockAccepted: an entry of zero bytes is stored as two equal consecutive offsets; GetBlock must hand out the
+// empty range, not report corruption: what is known at its successful return is start <= end, not start < end.
+func emptyBlockAccepted(c *eng.Ctx) {
+	p := c.P
+	f := c.Fn("pkg/encoding.FixedOffsetDecoder.GetBlock")
+	facts := p.MustFacts(f)
+	gets := c.Some(f, eng.CallTo("pkg/encoding.FixedOffsetDecoder.Get"), "d.Get(index), d.Get(index+1)")
+	c.Check(len(gets) >= 2, "both-offsets-read", nil, f, "start and end offset are read from the table", fmt.Sprintf("%d reads", len(gets)))
+	n := 0
+	for i, r := range eng.SuccessReturns(f) {
+		v := eng.RetVal(r, 0)
+		sl, ok := eng.Unwrap(v).(*ssa.Slice)
+		if !ok || sl.Low == nil || sl.High == nil {
+			continue
+		}
+		n++
+		fs := facts.At(r)
+		strict := facts.Find(fs, "lt", func(_ string, x ssa.Value) bool { return eng.SameValue(x, sl.Low) }, func(_ string, y ssa.Value) bool { return eng.SameValue(y, sl.High) })
+		c.Check(len(strict) == 0, fmt.Sprintf("empty-range-is-not-corruption[%d]", i), r, f,
+			"GetBlock accepts start == end (a key stored with an empty value): the range test that guards the slice is end >= start, not end > start",
+			"facts at the successful return: "+strings.Join(facts.Render(fs), " ; "))
+		weak := facts.Find(fs, "le", func(_ string, x ssa.Value) bool { return eng.SameValue(x, sl.Low) }, func(_ string, y ssa.Value) bool { return eng.SameValue(y, sl.High) })
+		c.Check(len(weak) > 0, fmt.Sprintf("range-checked[%d]", i), r, f, "the slice bounds are checked (start <= end) before slicing", "facts: "+strings.Join(facts.Render(fs), " ; "))
+	}
+	c.Check(n > 0, "returns-the-range", nil, f, "GetBlock returns dataBlock[start:end]", "")
 }
